@@ -442,6 +442,9 @@ def snakecase_to_camelcase(value: str) -> str:
     # Regex matches everything.
     captured = cast(Match[str], EXTRACT_UNDERSCORES_RE.match(value))
     value = value.strip("_")
+    if not value:
+        # Only underscores, nothing to convert.
+        return captured.group(0)
     leading, trailing = captured.groups()
 
     head, *tail = value.split("_")
